@@ -206,7 +206,36 @@ def run(chk):
                     chk.ob("C10-R1", "%s %s with N=%d reads only regions defined by the latest update or earlier in the query" % (cls, qn, n), not v, loc(q),
                            "%d region reads; %s" % (R.reads, v[0] if v else "all covered"), construct="%s/%s/N%d/%s" % (cls, qn, n, ("%s[%s]" % (v[0]["cont"], v[0]["key"])) if v else "ok"))
     # out-parameter wrappers used by the optimizer: each field of the Gradients out-parameter is wholly assigned, or handed
-    # to a traced query as a non-const out-parameter, before anything reads it
+    # on as a non-const out-parameter to a routine that wholly defines it (a traced query, or a helper that itself
+    # assigns it before anything reads it), before anything reads it
+    def defines_whole(cls, g, k, depth=0):
+        """does method g wholly (re)define its k-th parameter before reading it?  traced queries: yes (R1 replays them
+        with their out-parameters undefined); other helpers: the first statement mentioning it assigns it (or hands
+        it on to such a routine) and does not read it"""
+        if g["name"] in QUERIES:
+            return True
+        if depth > 4 or g.get("body") is None:
+            return False
+        pid = g["params"][k]["id"]
+        for st in g["body"]["body"]:
+            ments = [n for n in walk(st) if n.get("k") == "var" and n.get("id") == pid]
+            if not ments:
+                continue
+            e = st.get("e") if st.get("k") == "expr" else None
+            if e is not None and e.get("k") == "call" and callee(e).get("op") == "=" and isinstance(e.get("obj"), dict) and e["obj"].get("k") == "var" and e["obj"].get("id") == pid \
+                    and not any(n.get("k") == "var" and n.get("id") == pid for n in walk(e["args"])):
+                return True
+            if e is not None and e.get("k") == "assign" and e.get("op") == "=" and e["l"].get("k") == "var" and e["l"].get("id") == pid and not any(n.get("k") == "var" and n.get("id") == pid for n in walk(e["r"])):
+                return True
+            if e is not None and e.get("k") == "call":
+                h = F.by_fid.get(callee(e).get("fid"))
+                pm = callee(e).get("pm", [])
+                pos = [i for i, a in enumerate(e.get("args", [])) if isinstance(a, dict) and a.get("k") == "var" and a.get("id") == pid]
+                if h is not None and h.get("cls") == cls and len(pos) == 1 and len(ments) == 1 and pos[0] < len(pm) and pm[pos[0]] == "ref":
+                    return defines_whole(cls, h, pos[0], depth + 1)
+            return False
+        return False
+
     for short in SPLINES:
         for cls in full_classes(F, short, ("update", "propagateGrad")):
             for f in [g for g in F.funcs(cls) if g["name"] in ("getEnergyGrad", "propagateGrad") and g.get("body") and g["params"]
@@ -224,10 +253,11 @@ def run(chk):
                         if not any(is_mem_of_var(n, prm["id"], fld) for n in walk(e["args"])) and state.get(fld) is None:
                             state[fld] = "assigned"
                             done.add(fld)
-                    elif e is not None and e.get("k") == "call" and callee(e).get("name") in QUERIES and callee(e).get("cls") == cls:
+                    elif e is not None and e.get("k") == "call" and callee(e).get("cls") == cls and F.by_fid.get(callee(e).get("fid")) is not None:
+                        h = F.by_fid[callee(e)["fid"]]
                         pm = callee(e).get("pm", [])
                         for i, a in enumerate(e["args"]):
-                            if is_mem_of_var(a, prm["id"]) and i < len(pm) and pm[i] == "ref" and state.get(a["field"]) is None:
+                            if is_mem_of_var(a, prm["id"]) and i < len(pm) and pm[i] == "ref" and state.get(a["field"]) is None and defines_whole(cls, h, i):
                                 state[a["field"]] = "out-parameter of " + callee(e)["name"]
                                 done.add(a["field"])
                     for n in walk(st):
